@@ -177,13 +177,29 @@ def ident(s):
 class Ctx:
     def __init__(self, enums=None, calls=None, arrays=None):
         self.enums = enums or {}
-        self.calls = calls or {}      # C function name -> (lean name, returns_bool?)
+        self.calls = calls or {}      # C function name -> lean function name (applied to translated args)
         self.arrays = arrays or {}
         self.free = {}                # flattened member path -> ctype
         self.locals = set()
+        self.aliases = {}             # local pointer variable -> path prefix it stands for
+
+    # hooks (overridden by the state-passing translator in cstate.py)
+    def read_var(self, name, node):
+        return ident(name)
+
+    def read_member(self, path, node):
+        self.free[path] = ctype(node)
+        return ident(path)
+
+    def call(self, name, node):
+        """Return Lean term for a call expression, or None if unknown."""
+        if name in self.calls:
+            args = " ".join(expr(x, self) for x in node["inner"][1:])
+            return "(%s %s)" % (self.calls[name], args)
+        return None
 
 
-def member_path(n):
+def member_path(n, aliases=None):
     """`p->a.b` -> 'p_a_b'; returns None if not a pure member chain on a DeclRef."""
     parts = []
     while True:
@@ -194,11 +210,26 @@ def member_path(n):
         elif k in ("ImplicitCastExpr", "ParenExpr") and n.get("castKind", "LValueToRValue") in ("LValueToRValue", "NoOp"):
             n = n["inner"][0]
         elif k == "DeclRefExpr":
-            parts.append(n["referencedDecl"]["name"])
+            nm = n["referencedDecl"]["name"]
+            parts.append(aliases.get(nm, nm) if aliases else nm)
             break
+        elif k == "CStyleCastExpr" and n.get("castKind") in ("NoOp", "BitCast"):
+            n = n["inner"][0]          # e.g. ((EbSvtAv1EncConfiguration*)config_struct)->x
         else:
             return None
     return "_".join(reversed(parts))
+
+
+def literal_value(n):
+    """Value of a (possibly parenthesised / negated) integer literal, else None."""
+    while n.get("kind") in ("ParenExpr", "ConstantExpr"):
+        n = n["inner"][0]
+    if n.get("kind") == "IntegerLiteral":
+        return int(n["value"])
+    if n.get("kind") == "UnaryOperator" and n.get("opcode") == "-":
+        v = literal_value(n["inner"][0])
+        return None if v is None else -v
+    return None
 
 
 def expr(n, cx):
@@ -217,21 +248,45 @@ def expr(n, cx):
                 raise Unsupported("enum constant %s value unknown" % rd["name"])
             return "(%d : Int)" % cx.enums[rd["name"]]
         if rd["kind"] in ("ParmVarDecl", "VarDecl"):
-            return ident(rd["name"])
+            return cx.read_var(rd["name"], n)
         raise Unsupported("DeclRef to " + rd["kind"])
     if k == "MemberExpr":
-        p = member_path(n)
+        p = member_path(n, cx.aliases)
         if p is None:
             raise Unsupported("member expression base too complex")
-        cx.free[p] = ctype(n)
-        return ident(p)
+        return cx.read_member(p, n)
+    if k == "ArraySubscriptExpr":
+        base, idx = n["inner"]
+        while base.get("kind") in ("ImplicitCastExpr", "ParenExpr"):
+            base = base["inner"][0]
+        if base.get("kind") == "MemberExpr":
+            p = member_path(base, cx.aliases)
+            if p is None:
+                raise Unsupported("array base too complex")
+            bt = cx.read_member(p, base)
+        elif base.get("kind") == "DeclRefExpr":
+            bt = cx.read_var(base["referencedDecl"]["name"], base)
+        else:
+            raise Unsupported("array base kind %s" % base.get("kind"))
+        return "((%s).getD (%s).toNat 0)" % (bt, expr(idx, cx))
     if k == "ImplicitCastExpr" or k == "CStyleCastExpr":
         ck = n.get("castKind")
         inner = n["inner"][0]
-        if ck in ("LValueToRValue", "NoOp"):
+        if ck in ("LValueToRValue", "NoOp", "ArrayToPointerDecay"):
             return expr(inner, cx)
+        if ck == "NullToPointer":
+            return "(0 : Int)"
+        if ck == "PointerToBoolean":
+            return "(CSem.b2i (%s != 0))" % expr(inner, cx)
         if ck == "IntegralCast":
             src, dst = ctype(inner), ctype(n)
+            lit = literal_value(inner)
+            if lit is not None and dst[0] in ("U", "S", "E"):
+                bits = dst[1]
+                v = lit % (1 << bits)
+                if dst[0] == "S" and v >= (1 << (bits - 1)):
+                    v -= 1 << bits
+                return "(%d : Int)" % v          # conversion of a constant, folded at translation time
             e = expr(inner, cx)
             return e if fits(src, dst) else wrap(dst, e)
         if ck == "IntegralToBoolean":
@@ -241,6 +296,9 @@ def expr(n, cx):
         op = n["opcode"]
         a = n["inner"][0]
         if op == "-":
+            lv = literal_value(a)
+            if lv is not None and ctype(n) == ("S", 32) and lv < 2 ** 31:
+                return "(%d : Int)" % (-lv)
             return wrap(ctype(n), "(- %s)" % expr(a, cx))
         if op == "+":
             return expr(a, cx)
@@ -272,6 +330,8 @@ def expr(n, cx):
                 return "(CSem.%s32 %s %s)" % (f, ea, eb)
             if ty[0] in ("U", "E") and ty[1] == 32 and op != "^":
                 return "(CSem.%sU32 %s %s)" % (f, ea, eb)
+            if ty[1] == 64 and op != "^":
+                return "(CSem.%s%s64 %s %s)" % (f, "U" if ty[0] == "U" else "", ea, eb)
             raise Unsupported("bitwise %s at type %s" % (op, ty))
         if op == ",":
             raise Unsupported("comma operator")
@@ -284,11 +344,15 @@ def expr(n, cx):
         while callee.get("kind") in ("ImplicitCastExpr", "ParenExpr"):
             callee = callee["inner"][0]
         name = callee.get("referencedDecl", {}).get("name")
-        if name in cx.calls:
-            args = " ".join(expr(x, cx) for x in n["inner"][1:])
-            return "(%s %s)" % (cx.calls[name], args)
+        t = cx.call(name, n)
+        if t is not None:
+            return t
         raise Unsupported("call to %s" % name)
     if k == "UnaryExprOrTypeTraitExpr":
+        if n.get("name") == "sizeof" and "argType" in n:
+            t = ctype(n["argType"])
+            if t[0] in ("U", "S"):
+                return "(%d : Int)" % (t[1] // 8)
         raise Unsupported("sizeof")
     raise Unsupported("expression kind %s" % k)
 
@@ -298,7 +362,7 @@ def cond(n, cx):
     k = n.get("kind")
     if k == "ParenExpr":
         return cond(n["inner"][0], cx)
-    if k == "ImplicitCastExpr" and n.get("castKind") in ("LValueToRValue", "NoOp", "IntegralCast", "IntegralToBoolean"):
+    if k == "ImplicitCastExpr" and n.get("castKind") in ("LValueToRValue", "NoOp", "IntegralCast", "IntegralToBoolean", "PointerToBoolean"):
         inner = n["inner"][0]
         if n.get("castKind") == "IntegralCast" and not fits(ctype(inner), ctype(n)):
             return "(%s != 0)" % expr(n, cx)
